@@ -200,12 +200,12 @@ Definition pool_invariant (c : cfg) (s : st) : Prop :=
   NoDup (ids (live (s_heap s))) /\     (* no block id is live twice *)
   badfree (s_heap s) = 0.              (* no free() of a block that was not live: no double free, no use of a freed block id *)
 
-Lemma st_inv_pool_invariant : forall c s, st_inv c s -> pool_invariant c s.
+Lemma st_inv_pool_invariant : forall c s, st_inv [] c s -> pool_invariant c s.
 Proof.
-  unfold st_inv, pool_invariant. intros c s H. destruct (s_mgr s) as [m|].
-  - destruct H as (HP & (Hn & _ & Hb & _) & HT). repeat split; auto.
+  unfold st_inv, pool_invariant, inv. intros c s H. destruct (s_mgr s) as [m|].
+  - destruct H as (HP & (Hn & _ & Hb & _) & HT). rewrite app_nil_r in HP. repeat split; auto.
     rewrite HT. symmetry. apply sumsz_perm. auto.
-  - destruct H as (Hl & (Hn & _ & Hb & _)). repeat split; auto.
+  - destruct H as (Hl & (Hn & _ & Hb & _)). apply Permutation_sym in Hl; apply Permutation_nil in Hl. repeat split; auto.
 Qed.
 
 Theorem pool_inv_all_runs : forall c ops oracle,
@@ -222,16 +222,16 @@ Proof.
   intros c ops oracle Hc Hr s. unfold s. rewrite run_eq; auto.
   2: { apply Forall_app. split; auto. constructor; simpl; auto. }
   rewrite run_app. simpl.
-  pose proof (run_inv c ops (init_st oracle) Hc (init_st_inv c oracle)) as Hi.
+  pose proof (run_inv [] c ops (init_st oracle) Hc (init_st_inv c oracle)) as Hi.
   remember (run wid c ops (init_st oracle)) as s0. destruct s0 as [[m|] h prec]; unfold st_inv in Hi; simpl in *.
-  - pose proof (self_destruct_spec c m h Hi) as (Hl & (_ & _ & Hb & _)). auto.
-  - destruct Hi as (Hl & (_ & _ & Hb & _)). auto.
+  - pose proof (self_destruct_spec [] c m h Hi) as (Hl & (_ & _ & Hb & _)). apply Permutation_sym in Hl; apply Permutation_nil in Hl. auto.
+  - destruct Hi as (Hl & (_ & _ & Hb & _)). apply Permutation_sym in Hl; apply Permutation_nil in Hl. auto.
 Qed.
 
 (* free_pool(JPOOL_IMAGE) in any state satisfying the invariant: what remains live is
    exactly the control block and the PERMANENT pools, which are untouched *)
 Theorem free_pool_image_exact : forall c m h m' h' e,
-  inv c m h -> free_pool c m h 1 = (m', h', e) ->
+  inv [] c m h -> free_pool c m h 1 = (m', h', e) ->
   e = None /\
   Permutation (live h') ((m_blk m, c_mgr c) :: map (recblk c) (m_small0 m ++ m_large0 m)) /\
   m_small1 m' = [] /\ m_large1 m' = [] /\ m_vs m' = [] /\ m_vb m' = [] /\
@@ -242,7 +242,7 @@ Proof.
   pose proof (free_pool_lists c m h 1 m' h' e eq_refl H) as (A1 & A2 & A3 & A4 & A5 & A6).
   destruct (A6 eq_refl) as (V1 & V2).
   unfold get_small, get_large in *. simpl in *.
-  pose proof (free_pool_inv _ _ _ _ _ _ _ Hi H) as ((HP & _ & HT) & _).
+  pose proof (free_pool_inv _ _ _ _ _ _ _ _ Hi H) as ((HP & _ & HT) & _). rewrite app_nil_r in HP.
   assert (He : e = None).
   { unfold free_pool in H. simpl in H. destruct (free_list c _ h _) as [h1 t1]. destruct (free_list c _ h1 t1) as [h2 t2].
     inversion H; auto. }
@@ -257,8 +257,8 @@ Theorem malloc_sizes_bounded : forall c ops oracle,
   Forall (ev_ok c) (trace (s_heap (run w64 c ops (init_st oracle)))).
 Proof.
   intros. rewrite run_eq by auto.
-  pose proof (run_inv c ops (init_st oracle) H (init_st_inv c oracle)) as Hi.
-  unfold st_inv in Hi. destruct (s_mgr (run wid c ops (init_st oracle))).
+  pose proof (run_inv [] c ops (init_st oracle) H (init_st_inv c oracle)) as Hi.
+  unfold st_inv, inv in Hi. destruct (s_mgr (run wid c ops (init_st oracle))).
   - destruct Hi as (_ & (_ & _ & _ & Ht) & _). auto.
   - destruct Hi as (_ & (_ & _ & _ & Ht)). auto.
 Qed.
@@ -268,7 +268,7 @@ Theorem never_out_of_fuel : forall c ops oracle o,
   snd (step w64 c o (run w64 c ops (init_st oracle))) <> Some OutOfFuel.
 Proof.
   intros. rewrite run_eq by auto. rewrite step_eq by auto.
-  apply step_inv; auto. apply run_inv; auto. apply init_st_inv.
+  apply (step_inv []); auto. apply run_inv; auto. apply init_st_inv.
 Qed.
 
 (* a failing malloc inside alloc_large / jinit_memory_mgr changes neither heap nor lists *)
